@@ -43,6 +43,17 @@ theorem linger_infinite_waits (tick fuel : Nat) (emptyAt : Option Nat) (t : Nat)
 theorem linger_infinite_never_gives_up (tick fuel : Nat) : lingerEnds tick .infinite none fuel 0 = none := by
   exact lingerEnds_infinite_none tick fuel 0
 
+/-- whatever LINGER is — −1 included — close() does not hang around once everything is out: if the pipes are empty at time e
+the phase ends at the first check at or after e, less than one tick later -/
+theorem linger_ends_once_drained (tick : Nat) (ht : 0 < tick) (linger : Timeo) (e fuel : Nat) (hf : e / tick + 1 < fuel) :
+    ∃ t, lingerEnds tick linger (some e) fuel 0 = some t ∧ t < e + tick := by
+  apply lingerEnds_drained tick linger e fuel 0
+  · simpa using linger_fuel_enough tick ht e fuel hf
+  · omega
+
+/-- non-vacuity: LINGER −1, tick 100 ms, pipes empty 250 ms after close(): the phase ends at the check at 300 ms -/
+example : lingerEnds 100 .infinite (some 250) 10 0 = some 300 := by decide
+
 -- what the peer sees -----------------------------------------------------------------------------------------------
 
 /-- Whatever the moment of the close, whatever the session had written by then (any byte position, mid-chunk included) and
